@@ -269,13 +269,15 @@ class ParallelChannelPulseTemplate(PulseTemplate):
                                          ) -> Dict[str, Union[numbers.Real, ExpressionScalar]]:
         """Return a dictionary of ChannelID to channel value mappings. The channel values can bei either numbers or time
         dependent expressions."""
-        if 't' in parameters and any('t' in value.variables for value in self.overwritten_channels.values()):
+        kept = {name: value for name, value in self.overwritten_channels.items() if channel_mapping[name] is not None}
+        if 't' in parameters and any('t' in value.variables for value in kept.values()):
             # t is the time variable of a time dependent value: a parameter that happens to be called t must not be
-            # substituted for it
+            # substituted for it. Only when such a value is actually evaluated: parameters.items() evaluates every
+            # key of a MappedScope, so with all time dependent channels dropped an extra parameter called t would
+            # turn an unneeded missing parameter into an error
             parameters = {name: value for name, value in parameters.items() if name != 't'}
         return {channel_mapping[name]: value.evaluate_symbolic(parameters) if 't' in value.variables else value.evaluate_in_scope(parameters)
-                for name, value in self.overwritten_channels.items()
-                if channel_mapping[name] is not None}
+                for name, value in kept.items()}
 
     def _internal_create_program(self, *,
                                  scope: Scope,
